@@ -175,6 +175,21 @@ def match(p, v, b):
             raise NoMatch()
         match(p[1], v[:-1], b)
         match(p[2], v[-1], b)
+    elif t == "cons_chain":
+        # a .+ b .+ t without parentheses: `.+` is right-associative, so this is a .+ (b .+ t)
+        if not isinstance(v, (list, str)) or len(v) < len(p[1]):
+            raise NoMatch()
+        for i, q in enumerate(p[1]):
+            match(q, v[i], b)
+        b[p[2]] = v[len(p[1]):]
+    elif t == "snoc_chain":
+        # t +. a +. b without parentheses: `+.` is left-associative, so this is (t +. a) +. b
+        if not isinstance(v, (list, str)) or len(v) < len(p[2]):
+            raise NoMatch()
+        k = len(p[2])
+        for i, q in enumerate(p[2]):
+            match(q, v[len(v) - k + i], b)
+        b[p[1]] = v[:len(v) - k]
     elif t in ("plus", "plusl"):
         if not isinstance(v, (int, float, Fraction)) or isinstance(v, bool) or v - p[2] < 0:
             raise NoMatch()
@@ -230,6 +245,10 @@ def ppat(p, top=False):
         return "(%s .+ %s)" % (ppat(p[1]), ppat(p[2]))
     if t == "snoc":
         return "(%s +. %s)" % (ppat(p[1]), ppat(p[2]))
+    if t == "cons_chain":
+        return "(%s .+ %s)" % (" .+ ".join(ppat(q) for q in p[1]), p[2])
+    if t == "snoc_chain":
+        return "(%s +. %s)" % (p[1], " +. ".join(ppat(q) for q in p[2]))
     if t == "plus":
         return "(%s + %d)" % (p[1], p[2])
     if t == "plusl":
@@ -261,6 +280,14 @@ def names_of(p, acc):
     elif t in ("and", "cons", "snoc"):
         names_of(p[1], acc)
         names_of(p[2], acc)
+    elif t == "cons_chain":
+        for x in p[1]:
+            names_of(x, acc)
+        acc.add(p[2])
+    elif t == "snoc_chain":
+        acc.add(p[1])
+        for x in p[2]:
+            names_of(x, acc)
     elif t == "ann":
         names_of(p[1], acc)
     elif t == "struct":
@@ -282,7 +309,7 @@ def has(p, kinds):
 
 
 def nfeatures(p):
-    return sum(1 for k in ("splat", "def", "or", "and", "ann", "struct", "cons", "snoc", "plus", "plusl", "neg", "div", "between") if has(p, (k,))) \
+    return sum(1 for k in ("splat", "def", "or", "and", "ann", "struct", "cons", "snoc", "cons_chain", "snoc_chain", "plus", "plusl", "neg", "div", "between") if has(p, (k,))) \
         + (1 if p[0] == "seq" and any(x[0] == "seq" for x in p[1]) else 0)
 
 
@@ -621,7 +648,7 @@ def s_pattern_case(draw):
         if allow_lit:
             opts += ["i", "s", "null"]
         if d > 0:
-            opts += ["seq", "seq", "seq", "or", "and", "ann", "ann", "struct", "cons", "snoc", "neg", "div"]
+            opts += ["seq", "seq", "seq", "or", "and", "ann", "ann", "struct", "cons", "snoc", "neg", "div", "cons_chain", "snoc_chain"]
             if allow_lit:
                 opts += ["plus", "plusl", "between"]
         k = draw(st.sampled_from(opts))
@@ -700,6 +727,17 @@ def s_pattern_case(draw):
         if k == "cons":
             p1, v1 = gen(d - 1, allow_lit)
             return ["cons", p1, ["n", fresh()]], [v1] + [anyval(0) for _ in range(draw(st.integers(0, 2)))]
+        if k in ("cons_chain", "snoc_chain"):
+            n = draw(st.integers(2, 3))
+            ps, vs = [], []
+            for _ in range(n):
+                q, w = gen(0, allow_lit)
+                ps.append(q)
+                vs.append(w)
+            rest = [anyval(0) for _ in range(draw(st.integers(0, 2)))]
+            if k == "cons_chain":
+                return ["cons_chain", ps, fresh()], vs + rest
+            return ["snoc_chain", fresh(), ps], rest + vs
         if k == "snoc":
             p2, v2 = gen(d - 1, allow_lit)
             return ["snoc", ["n", fresh()], p2], [anyval(0) for _ in range(draw(st.integers(0, 2)))] + [v2]
